@@ -82,37 +82,50 @@ theorem trav_frame (m : Method) (ell : Bool) (val : Json) : ∀ (parts : List By
         cases q with
         | nil => simp [apart] at hq
         | cons a q' =>
-          have hd : (part :: r0 :: r').dropLast = part :: (r0 :: r').dropLast := by simp [List.dropLast]
+          -- the first element of `parts.dropLast` is `part` in every case
+          have hd : ∃ tl, (part :: r0 :: r').dropLast = part :: tl ∧ (r' ≠ [] → tl = (r0 :: r').dropLast) ∧ (r' = [] → tl = []) := by
+            cases r' with
+            | nil => exact ⟨[], by simp [List.dropLast], by simp, by simp⟩
+            | cons r1 r2 => exact ⟨(r0 :: r1 :: r2).dropLast, by simp [List.dropLast], by simp, by simp⟩
+          obtain ⟨tl, hd, htl1, htl2⟩ := hd
           rw [hd] at hq
           simp only [apart] at hq
-          rw [trav_arr]
           cases ha : atoi a with
           | none => simp [ha] at hq
-          | some i =>
-            cases hj : atoi part with
-            | none => simp [ha, hj] at hq
-            | some j =>
-              simp only [ha, hj] at hq ⊢
-              by_cases hoob : j < 0 ∨ j ≥ xs.length
-              · rw [if_pos hoob]
-              · rw [if_neg hoob]
-                cases hx : xs[j.toNat]? with
-                | none => rfl
-                | some c =>
-                  simp only [inArr, sget_arr_cons, ha]
-                  by_cases hij : i = j
-                  · subst hij
-                    simp only [if_true] at hq
-                    by_cases h0 : 0 ≤ i
-                    · simp only [h0, if_true, hx] at hq ⊢
-                      have hlt : i.toNat < xs.length := by omega
-                      simp only [List.getElem?_set_self hlt]
-                      exact ih c q' hq
-                    · simp [h0] at hq
-                  · by_cases h0 : 0 ≤ i
-                    · have hne : j.toNat ≠ i.toNat := by omega
-                      simp only [h0, if_true, List.getElem?_set_ne hne]
-                    · simp [h0]
+          | some i' =>
+            rcases trav_arr_cases m ell val part (r0 :: r') xs with ⟨_, heq⟩ | ⟨i, _, _, heq⟩ | ⟨j, c, hj, h0j, hltj, hx, hcase⟩
+            · rw [heq]
+            · rw [heq]
+            · simp only [ha, hj] at hq
+              -- reading index i' from `xs` with element j replaced
+              have hread : ∀ (c' : Json), i' ≠ j → sget (a :: q') (.arr (xs.set j.toNat c')) = sget (a :: q') (.arr xs) := by
+                intro c' hij
+                simp only [sget_arr_cons, ha]
+                by_cases h0 : 0 ≤ i'
+                · have hne : j.toNat ≠ i'.toNat := by omega
+                  simp only [h0, if_true, List.getElem?_set_ne hne]
+                · simp [h0]
+              by_cases hij : i' = j
+              · subst hij
+                simp only [if_true, h0j, hx] at hq
+                rcases hcase with ⟨arr, idxStr, rfl, hr, heq⟩ | ⟨_, heq⟩
+                · -- array destination: `tl = []`, nothing below is apart
+                  have : r' = [] := by simp at hr; exact hr.2
+                  rw [htl2 this, apart_nil_right] at hq
+                  cases hq
+                · rw [heq]
+                  simp only [inArr, sget_arr_cons, ha, h0j, if_true, hx]
+                  have hlt : i'.toNat < xs.length := by omega
+                  simp only [List.getElem?_set_self hlt]
+                  have htl : tl = (r0 :: r').dropLast := by
+                    cases r' with
+                    | nil => simp [htl2 rfl, List.dropLast]
+                    | cons _ _ => exact htl1 (by simp)
+                  rw [htl] at hq
+                  exact ih c q' hq
+              · rcases hcase with ⟨arr, idxStr, rfl, hr, heq⟩ | ⟨_, heq⟩
+                · rw [heq]; simp only [inArrayElem]; exact hread _ hij
+                · rw [heq]; simp only [inArr]; exact hread _ hij
     | null => rw [trav_scalar (by simp) (by simp)]
     | bool _ => rw [trav_scalar (by simp) (by simp)]
     | num _ => rw [trav_scalar (by simp) (by simp)]
